@@ -82,76 +82,7 @@ func layoutConsts(fn *ssa.Function) map[string]bool {
 }
 
 func checkC19(p *Prog, r *Report) {
-	r.Rule("R1", "every layout a textual-form constructor formats with is in the layout table of the parser of the type it produces; the constructor converts to UTC and the parser parses in UTC")
-	nW := 0
-	for _, fn := range p.RepoFns("model") {
-		var format *ssa.Call
-		forEachCall(fn, func(site ssa.CallInstruction) {
-			if c, ok := site.(*ssa.Call); ok {
-				if callee := c.Call.StaticCallee(); callee != nil && fnPkgPath(callee) == "time" && callee.Name() == "Format" {
-					format = c
-				}
-			}
-		})
-		if format == nil {
-			continue
-		}
-		layout, isConst := constString(format.Call.Args[1])
-		if !isConst {
-			continue
-		}
-		nW++
-		base := FnName(fn)
-		// result type of the constructor
-		var parser *ssa.Function
-		parserOf := func(f *ssa.Function) *ssa.Function {
-			if f.Signature.Results().Len() == 1 {
-				if nt := namedOf(f.Signature.Results().At(0).Type()); nt != nil {
-					return p.Method("model", nt.Obj().Name(), "GetTime")
-				}
-			}
-			return nil
-		}
-		parser = parserOf(fn)
-		if parser == nil {
-			// the formatting sits in a helper returning the text: the constructors calling it say which type is produced
-			// (a type whose parser only delegates to another type's parser has no table of its own and is passed over)
-			for _, site := range p.Callers(fn) {
-				if pf := parserOf(site.Parent()); pf != nil && len(layoutConsts(pf)) > 0 && (parser == nil || pf.String() < parser.String()) {
-					parser = pf
-				}
-			}
-		}
-		if parser == nil {
-			r.Undecided("R1", base+"|parser", p.Pos(fn.Pos()), "no GetTime parser on the produced type")
-			continue
-		}
-		table := layoutConsts(parser)
-		r.Check("R1", base+"|layout", table[layout], p.InstrPos(format), fmt.Sprintf("writer layout %q; parser table %v", layout, sortedKeys(table)))
-		// UTC on both sides
-		wUTC := false
-		if rc, ok := format.Call.Args[0].(*ssa.Call); ok {
-			if callee := rc.Call.StaticCallee(); callee != nil && fnPkgPath(callee) == "time" && callee.Name() == "UTC" {
-				wUTC = true
-			}
-		}
-		pUTC := false
-		p.InScope(parser, func() {
-			forEachCall(parser, func(site ssa.CallInstruction) {
-				if callee := site.Common().StaticCallee(); callee != nil && fnPkgPath(callee) == "time" && callee.Name() == "ParseInLocation" {
-					if Path(site.Common().Args[2]) == "global:UTC" {
-						pUTC = true
-					}
-				}
-			})
-		})
-		r.Check("R1", base+"|utc", wUTC && pUTC, p.InstrPos(format), fmt.Sprintf("writer converts to UTC: %v; parser parses in UTC: %v", wUTC, pUTC))
-		// a layout ending in Z must be written from a UTC time (else the zone letter lies)
-		if strings.HasSuffix(layout, "Z") && !wUTC {
-			r.Fail("R1", base+"|zone", p.InstrPos(format), "literal Z in the layout without conversion to UTC")
-		}
-	}
-	r.Floor("R1", "textual-form constructors", nW, 1)
+	timestampLayoutRule(p, r, "R1")
 
 	r.Rule("R2", "no float→integer conversion of a product with math.Pow(10, d) goes through math.Trunc/math.Floor or happens without rounding")
 	r.Rule("R3", "the scale stored is the negated decimal count used as exponent; GetValue multiplies the stored number by ten to the stored scale")
@@ -833,4 +764,80 @@ func sharedGlobalCells(p *Prog, r *Report, rule string) {
 		r.Pass(rule, "pointer-stores", "", fmt.Sprintf("%d stores of a pointer into a field: none stores the address of a package-level variable", nStores))
 	}
 	r.Floor(rule, "stores of a pointer into a field", nStores, 8)
+}
+
+// timestampLayoutRule: writer layout within the parser's table, UTC on both sides. Shared: C19-R1, C16-R14 (the
+// heartbeat carries a current timestamp: local time labelled Z is off by the zone offset).
+func timestampLayoutRule(p *Prog, r *Report, rule string) {
+	r.Rule(rule, "every layout a textual-form constructor formats with is in the layout table of the parser of the type it produces; the constructor converts to UTC and the parser parses in UTC")
+	nW := 0
+	for _, fn := range p.RepoFns("model") {
+		var format *ssa.Call
+		forEachCall(fn, func(site ssa.CallInstruction) {
+			if c, ok := site.(*ssa.Call); ok {
+				if callee := c.Call.StaticCallee(); callee != nil && fnPkgPath(callee) == "time" && callee.Name() == "Format" {
+					format = c
+				}
+			}
+		})
+		if format == nil {
+			continue
+		}
+		layout, isConst := constString(format.Call.Args[1])
+		if !isConst {
+			continue
+		}
+		nW++
+		base := FnName(fn)
+		// result type of the constructor
+		var parser *ssa.Function
+		parserOf := func(f *ssa.Function) *ssa.Function {
+			if f.Signature.Results().Len() == 1 {
+				if nt := namedOf(f.Signature.Results().At(0).Type()); nt != nil {
+					return p.Method("model", nt.Obj().Name(), "GetTime")
+				}
+			}
+			return nil
+		}
+		parser = parserOf(fn)
+		if parser == nil {
+			// the formatting sits in a helper returning the text: the constructors calling it say which type is produced
+			// (a type whose parser only delegates to another type's parser has no table of its own and is passed over)
+			for _, site := range p.Callers(fn) {
+				if pf := parserOf(site.Parent()); pf != nil && len(layoutConsts(pf)) > 0 && (parser == nil || pf.String() < parser.String()) {
+					parser = pf
+				}
+			}
+		}
+		if parser == nil {
+			r.Undecided(rule, base+"|parser", p.Pos(fn.Pos()), "no GetTime parser on the produced type")
+			continue
+		}
+		table := layoutConsts(parser)
+		r.Check(rule, base+"|layout", table[layout], p.InstrPos(format), fmt.Sprintf("writer layout %q; parser table %v", layout, sortedKeys(table)))
+		// UTC on both sides
+		wUTC := false
+		if rc, ok := format.Call.Args[0].(*ssa.Call); ok {
+			if callee := rc.Call.StaticCallee(); callee != nil && fnPkgPath(callee) == "time" && callee.Name() == "UTC" {
+				wUTC = true
+			}
+		}
+		pUTC := false
+		p.InScope(parser, func() {
+			forEachCall(parser, func(site ssa.CallInstruction) {
+				if callee := site.Common().StaticCallee(); callee != nil && fnPkgPath(callee) == "time" && callee.Name() == "ParseInLocation" {
+					if Path(site.Common().Args[2]) == "global:UTC" {
+						pUTC = true
+					}
+				}
+			})
+		})
+		r.Check(rule, base+"|utc", wUTC && pUTC, p.InstrPos(format), fmt.Sprintf("writer converts to UTC: %v; parser parses in UTC: %v", wUTC, pUTC))
+		// a layout ending in Z must be written from a UTC time (else the zone letter lies)
+		if strings.HasSuffix(layout, "Z") && !wUTC {
+			r.Fail(rule, base+"|zone", p.InstrPos(format), "literal Z in the layout without conversion to UTC")
+		}
+	}
+	r.Floor(rule, "textual-form constructors", nW, 1)
+
 }
